@@ -225,6 +225,23 @@ Example C02_refuted_py_triple_in_string :
 Proof. vm_compute. reflexivity. Qed.
 Print Assumptions C02_refuted_py_triple_in_string.
 
+(* D45: a nesting language (Rust: block comments nest): a block closed on a line whose trailing line comment
+   mentions an opener -- the nesting counter also counts markers inside that line comment, so the depth stays 1
+   and the code line after it is counted as comment.   truth = Comment Comment Code *)
+Definition rs_tail_syntax : syntax := {| single := [[47;47]]; multi := [ {| ml_start := [47;42]; ml_end := [42;47]; ml_nest := true; ml_linestart := false; ml_kind := Static |} ] |}.
+Example C02_refuted_nested_opener_in_tail_comment :
+  classes rs_tail_syntax [[47;42;32;97]; [98;32;42;47;32;47;47;32;115;101;101;32;47;42;32;99]; [108;101;116;32;121;32;61;32;49;59]] st0 = [Comment; Comment; Comment].
+Proof. vm_compute. reflexivity. Qed.
+Print Assumptions C02_refuted_nested_opener_in_tail_comment.
+
+(* D46: Ruby =begin / =end close only at the start of a line, but the closer is searched anywhere in the line:
+   the word =end inside the block text ends it early.   truth = Comment Comment Comment Comment Code *)
+Definition rb_pod_syntax : syntax := {| single := [[35]]; multi := [ {| ml_start := [61;98;101;103;105;110]; ml_end := [61;101;110;100]; ml_nest := false; ml_linestart := true; ml_kind := Static |} ] |}.
+Example C02_refuted_linestart_closer_midline :
+  classes rb_pod_syntax [[61;98;101;103;105;110]; [116;104;101;32;61;101;110;100;32;111;102]; [115;116;105;108;108;32;99;111;109;109;101;110;116]; [61;101;110;100]; [120;32;61;32;49]] st0 = [Comment; Comment; Code; Code; Code].
+Proof. vm_compute. reflexivity. Qed.
+Print Assumptions C02_refuted_linestart_closer_midline.
+
 (* ---- non-vacuity: a concrete valid program exercising every piece kind ---- *)
 Definition cblock : mlc := {| ml_start := [47;42]; ml_end := [42;47]; ml_nest := false; ml_linestart := false; ml_kind := Static |}.
 Definition demo : list item :=
